@@ -122,6 +122,7 @@ let judge_line (_ : string) (impl : string) : string =
       let sk = string_of_bytes sk in
       if e = "nil" then (if sk = get "K" then "ok:accepted" else "bad:skeleton:" ^ sk)
       else "ok:model-accepts-delivered-prefix:" ^ e
+    | PFuel -> "bad:model-out-of-fuel"
     | PErr at ->
       if e = "nil" then
         "bad:accepted-ungrammatical-token-sequence:" ^ (match at with Some i -> "token " ^ string_of_int (int_of_nat i) | None -> "EOF")
